@@ -279,6 +279,42 @@ func checkC18(c C18Case, o *Obs) error {
 			return fmt.Errorf("%s: 'for range' with break at item %d of %d panicked: %v", c.Iter, s, N, p)
 		}
 	}
+	// An iteration started in the loop body of another iteration of the same kind and stopped
+	// there after one item: the outer iteration still delivers the items of an uninterrupted run.
+	if N >= 2 {
+		o.Class("stopped inside another iteration")
+		for _, at := range []int{0, N / 2} {
+			var outer []Item
+			innerSeen := 0
+			if p := catch(func() {
+				run(func(it Item) bool {
+					if len(outer) == at {
+						run(func(Item) bool { innerSeen++; return false })
+					}
+					outer = append(outer, it)
+					return len(outer) <= N+1
+				})
+			}); p != nil {
+				return fmt.Errorf("%s: an iteration in whose loop body (at item %d) another one was started and stopped after one item panicked: %v", c.Iter, at, p)
+			}
+			if innerSeen != 1 {
+				return fmt.Errorf("%s: the inner iteration, stopped at its first item, made %d callbacks", c.Iter, innerSeen)
+			}
+			bad := len(outer) != N
+			got := map[string]int{}
+			for i := 0; i < len(outer) && !bad; i++ {
+				if unordered {
+					got[outer[i].key()]++
+					bad = got[outer[i].key()] > fullSet[outer[i].key()]
+				} else {
+					bad = outer[i].key() != full[i].key()
+				}
+			}
+			if bad {
+				return fmt.Errorf("%s: an iteration in whose loop body (at item %d) another one was started and stopped after one item yields %s, an uninterrupted run yields %s", c.Iter, at, describeItems(outer), describeItems(full))
+			}
+		}
+	}
 	o.Count("stopped_runs", 2*stops)
 	return nil
 }
